@@ -220,12 +220,19 @@ def _main():
         t: typing.Tuple[float, float]
 
 
+    @dataclasses.dataclass
+    class WithFlags(dictlike.DictLike):
+        flag: bool
+        label: str
+        flags: typing.Tuple[bool, bool]
+
     CASES = [
         ("Inner", Inner(1.5, (2, 3))), ("Inner[numpy scalars in the tuple]", Inner(np.float64(1.5), (np.int64(2), np.int64(3)))),
         ("WithArray[1d]", WithArray(np.array([1.0, 2.0, np.nan]), "v")), ("WithArray[2d]", WithArray(np.arange(6.0).reshape(2, 3), "m")),
         ("WithOptional[None]", WithOptional(Colour.RED, Inner(0.5, (1, 2)))), ("WithOptional[set]", WithOptional(Colour.BLUE, Inner(0.5, (1, 2)), 3.5, [(1.0, 2), (3.0, 4)])),
         ("WithOptional[numpy numbers in a list of tuples]", WithOptional(Colour.BLUE, Inner(0.5, (1, 2)), np.float64(3.5), [(np.float64(1.0), np.int64(2))])),
-        ("WithScalars[python]", WithScalars(1.0, 2, (3.0, 4.0))), ("WithScalars[np.float32, np.int64]", WithScalars(np.float32(1.0), np.int64(2), (np.float64(3.0), np.float32(4.0)))),
+        ("WithFlags[python]", WithFlags(True, "a", (False, True))), ("WithFlags[np.bool_, np.str_]", WithFlags(np.bool_(True), np.str_("a"), (np.bool_(False), np.isclose(1.0, 1.0)))),
+    ("WithScalars[python]", WithScalars(1.0, 2, (3.0, 4.0))), ("WithScalars[np.float32, np.int64]", WithScalars(np.float32(1.0), np.int64(2), (np.float64(3.0), np.float32(4.0)))),
     ]
     for nm, obj in CASES:
         attempt(f"C40.bounded.dictlike.plain[{nm}]", "eko.io.dictlike:raw_field", plain, obj)
